@@ -130,6 +130,42 @@ func c06f(c *Ctx) {
 			c.Check(okOwner, fmt.Sprintf("owners/%s/%s#%d", c.W.FuncKey(fn), f, k), c.W.Pos(fa.Pos()), "Parser."+f+" is used by one of its owners ("+strings.Join(os, ", ")+")", c.W.FuncKey(fn)+" touches Parser."+f+" (or hands the table to somebody else); its owners are "+strings.Join(os, ", ")+": the rules that decide hoisting / substitution read those functions and nothing else")
 		})
 	}
+	// the maps the parser is handed (the -s switches, the command configuration, the font table)
+	// are input: no function of the parser package — method or not — enters into, or deletes from,
+	// a map it reaches through the Parser, other than the owned tables above
+	nMapW := 0
+	for _, fn := range c.W.FuncsOf("parser") {
+		if isTestFunc(c.W, fn) || len(fn.Blocks) == 0 {
+			continue
+		}
+		k := 0
+		instrs(fn, func(in ssa.Instruction) {
+			var m ssa.Value
+			what := ""
+			switch x := in.(type) {
+			case *ssa.MapUpdate:
+				m, what = x.Map, "enters a value into"
+			case ssa.CallInstruction:
+				if calleeName(x) == "builtin:delete" {
+					m, what = x.Common().Args[0], "deletes from"
+				}
+			}
+			if m == nil {
+				return
+			}
+			r := mapRootField(m)
+			if r == "" {
+				return
+			}
+			nMapW++
+			if _, owned := owners[strings.TrimPrefix(r, "Parser.")]; owned {
+				return
+			}
+			k++
+			c.Bad(fmt.Sprintf("input-maps-read-only/%s/%s#%d", c.W.FuncKey(fn), r, k), c.W.Pos(in.Pos()), c.W.FuncKey(fn)+" "+what+" "+r+": what the parser is handed (switches, configuration) is input, and a change made while compiling one text is still there when the next one is compiled")
+		})
+	}
+	c.Check(nMapW >= 5, "input-maps-read-only/census", "-", fmt.Sprintf("%d map writes through the Parser, all into its own tables", nMapW), fmt.Sprintf("only %d map writes through the Parser found", nMapW))
 	// registration: only after a whole top-level statement
 	nReg := 0
 	for _, name := range []string{"addImplicitData", "addImplicitTexts", "addImplicitMovements"} {
